@@ -562,10 +562,13 @@ fn totality(acc: &mut Acc, tier: Tier) -> usize {
                     set_clock_ms((t0 + 60) * 1000);
                     let (svc, _log) = cfg.build();
                     let out = call(&svc, &base.req, body_from_steps(steps(&base.body)));
-                    if !out.resp().is_some_and(|r| r.status.as_u16() < 300) {
-                        crate::common::machinery_failure(&format!("C04 base request {bname} is not an honest request: {}", out.verdict()));
+                    // (on the unchanged tree all of them are; a changed tree may refuse or fail an honest request - that is for
+                    // the checks of acceptance to report, here it is only recorded so that a base that lost its meaning is seen)
+                    if out.resp().is_some_and(|r| r.status.as_u16() < 300) {
+                        a.count("signed_base_requests_confirmed_honest(2xx under the provider)", 1);
+                    } else {
+                        a.count(&format!("SIGNED BASE REQUEST NOT ANSWERED 2xx: {bname}: {}", out.verdict().chars().take(80).collect::<String>()), 1);
                     }
-                    a.count("signed_base_requests_confirmed_honest(2xx under the provider)", 1);
                 }
             }
             Some(s1) => {
